@@ -17,10 +17,11 @@ go test -vet=off -count=1 ./... 2>&1 | grep -v -E '^ok|no test files' | grep -E 
 if grep -q -- '--- FAIL' /tmp/vfconfirm-fail.$$; then echo "SUITE-FAILS-WITH-PATCH:"; cat /tmp/vfconfirm-fail.$$; rm -f /tmp/vfconfirm-fail.$$; exit 3; fi
 rm -f /tmp/vfconfirm-fail.$$
 cp $src/demo_test.go $pkgdir/zz_demo_test.go
-if go test -vet=off -count=1 -run 'Demo' ./$pkgdir/ >/tmp/vfconfirm-with.$$ 2>&1; then echo "DEMO-PASSES-WITH-PATCH (bad)"; tail -5 /tmp/vfconfirm-with.$$; rm -f /tmp/vfconfirm-with.$$; exit 3; fi
+runre="^($(grep -oE '^func (Test[A-Za-z0-9_]+)' $src/demo_test.go | awk '{print $2}' | paste -sd'|'))\$"
+if go test -vet=off -count=1 -run "$runre" ./$pkgdir/ >/tmp/vfconfirm-with.$$ 2>&1; then echo "DEMO-PASSES-WITH-PATCH (bad)"; tail -5 /tmp/vfconfirm-with.$$; rm -f /tmp/vfconfirm-with.$$; exit 3; fi
 rm -f /tmp/vfconfirm-with.$$
 git apply -R $src/patch.diff
-if ! go test -vet=off -count=1 -run 'Demo' ./$pkgdir/ >/tmp/vfconfirm-wo.$$ 2>&1; then echo "DEMO-FAILS-WITHOUT-PATCH (bad)"; tail -15 /tmp/vfconfirm-wo.$$; rm -f /tmp/vfconfirm-wo.$$; exit 3; fi
+if ! go test -vet=off -count=1 -run "$runre" ./$pkgdir/ >/tmp/vfconfirm-wo.$$ 2>&1; then echo "DEMO-FAILS-WITHOUT-PATCH (bad)"; tail -15 /tmp/vfconfirm-wo.$$; rm -f /tmp/vfconfirm-wo.$$; exit 3; fi
 rm -f /tmp/vfconfirm-wo.$$
 mkdir -p /verif/seeded/$name
 cp $src/patch.diff $src/demo_test.go $src/meta.json /verif/seeded/$name/
